@@ -86,14 +86,19 @@ int main(int argc, char **argv)
 	while (fgets(line, sizeof line, sf)) {
 		KV kv; kv_parse(&kv, line); if (!kv.n) continue;
 		const char *op = kv_str(&kv, "op", "rand_bytes"); long seed = kv_int(&kv, "seed", 1), failat = kv_int(&kv, "failat", 0), reps = kv_int(&kv, "reps", 1);
-		ent_tag("op"); ent_seed((uint64_t)seed); ent_fail_at(failat); ent_log(reps <= 4);
+		long high = kv_int(&kv, "high", 0);
+		ent_tag("op"); ent_seed((uint64_t)seed); ent_fail_at(failat); ent_high_for(high); ent_log(reps <= 4 && high <= 4);
 		for (long r = 0; r < reps; r++) {
 			uint8_t *out = calloc(1, 16384), eph[128]; size_t ol = 0, el = 0; long d0 = ent_draws();
 			vt_begin("OpBegin"); vt_str("op", op); vt_int("seed", seed); vt_int("failat", failat); vt_int("rep", r); vt_end();
 			int persist = strstr(op, "_persist") != NULL; persist_rep = r; long f0 = ent_failures();
 			int rc = run_op(op, out, &ol, eph, &el);
 			vt_begin("OpEnd"); vt_str("op", op); vt_int("rep", r); vt_int("rc", rc); vt_int("draws", ent_draws() - d0); vt_int("entfail", persist ? (ent_failures() > f0) : ent_failed()); vt_int("persist", persist); vt_int("outlen", (long)ol);
-			vt_bytes("out", out, ol < 96 ? ol : 96); vt_bytes("eph", eph, el); vt_end();
+			vt_bytes("out", out, ol < 96 ? ol : 96); vt_bytes("eph", eph, el); vt_int("high", high);
+			// the 32-byte draws of this operation that a scalar range can accept (not FF..FF), oldest first, at most 8: the secret scalar must be one of them
+			{ uint8_t cand[8 * 32]; size_t cl = 0; for (long i = d0 + 1; i <= ent_draws() && cl < sizeof cand; i++) { const ENT_DRAW *d = ent_get(i); if (!d || d->len != 32 || d->failed) continue;
+				int ff = 1; for (int j = 0; j < 32; j++) if (d->data[j] != 0xFF) ff = 0; if (!ff) { memcpy(cand + cl, d->data, 32); cl += 32; } } vt_bytes("cand", cand, cl); }
+			vt_end();
 			free(out);
 		}
 		ent_fail_at(0);
